@@ -1,7 +1,7 @@
 (* C09: bit-vector access, rank and select are exact for every bit sequence; the portable word functions
    equal what the popcnt / lzcnt / pdep+tzcnt instructions compute.  (BitToolsGen.v is regenerated from
    bit_tools.hpp on every run, so these theorems are re-proved against the current source.) *)
-From X Require Import Base Arr BitToolsSpec BitToolsGen BitVector Iface BitToolsFacts BitVectorFacts All.
+From X Require Import Base Arr BitToolsSpec BitToolsGen BitVector Iface BitToolsFacts BitVectorFacts All AccessLib AccessGen AllAccess.
 Local Open Scope N_scope.
 
 Theorem C09_size_ones : forall bits r s, lenN bits < max_bits ->
@@ -42,6 +42,24 @@ Proof. intros x k H1 H2. split; [apply select_in_word_agree|apply select_in_word
 Theorem C09_rank_portable : forall v i, bv_rank_intr v i = bv_rank v i.
 Proof. exact (bv_rank_intr_eq popcount_thm). Qed.
 
+(* access / rank / select as REGENERATED FROM bit_vector.hpp on every run (AccessGen.v: operator[], rank, select with
+   rank_for_word, rank_in_block, select_with_hint and the binary search of select_for_block) *)
+Theorem C09_source_access : forall bits r s v i, lenN bits < max_bits ->
+  bv_of_bits bits r s = Ok v -> i < lenN bits -> bvg_get v i = Ok (nthb bits i).
+Proof. exact src_bv_get. Qed.
+Theorem C09_source_rank : forall bits s v i, lenN bits < max_bits ->
+  bv_of_bits bits true s = Ok v -> i <= lenN bits ->
+  bvg_rank v i = Ok (count_true (firstn (N.to_nat i) bits)).
+Proof. exact src_bv_rank. Qed.
+Theorem C09_source_select : forall bits v n, lenN bits < max_bits ->
+  bv_of_bits bits true true = Ok v -> n < count_true bits ->
+  exists p, bvg_select v n = Ok p /\ p < lenN bits /\ nthb bits p = true /\
+            count_true (firstn (N.to_nat p) bits) = n.
+Proof. exact src_bv_select. Qed.
+Example C09_source_nonvacuous : match bv_of_bits ([true; true] ++ repeat false 898 ++ [true] ++ repeat false 59) true true with
+  | Ok v => bvg_select v 2 = Ok 900 /\ bvg_rank v 901 = Ok 3 /\ bvg_get v 900 = Ok true | _ => False end.
+Proof. vm_compute. repeat split; reflexivity. Qed.
+
 (* the defect F8 (unrepaired) made C09_select false: its witness now computes correctly in the model *)
 Example C09_f8_witness : match bv_of_bits ([true; true] ++ repeat false 898 ++ [true] ++ repeat false 59) true true with
   | Ok v => bv_select v 2 = Ok 900 | _ => False end.
@@ -49,4 +67,5 @@ Proof. vm_compute. reflexivity. Qed.
 
 Print Assumptions C09_size_ones. Print Assumptions C09_access. Print Assumptions C09_rank. Print Assumptions C09_select.
 Print Assumptions C09_builder_push_back. Print Assumptions C09_builder_set_bit. Print Assumptions C09_builder_resize. Print Assumptions C09_builder_read.
+Print Assumptions C09_source_access. Print Assumptions C09_source_rank. Print Assumptions C09_source_select.
 Print Assumptions C09_popcount_portable. Print Assumptions C09_msb_portable. Print Assumptions C09_select_in_word_portable. Print Assumptions C09_rank_portable.
